@@ -30,6 +30,72 @@ CLAIMS = {
         note=TB + "The registry's names are the tool's documented vocabulary; its codes come from the drafts/RFCs.",
         technique="exhaustive table extraction (ast constant folding) + registry comparison; abstract evaluation of the generic lookup methods",
         ref="5/C08"),
+
+    "C04": dict(
+        text="Static, partial: abstract evaluation of the signer decides that the KMS input is exactly "
+             "cbor(['Signature1', bstr(protected), h'', bstr(digest of this envelope)]), that the block appended is "
+             "bstr(cbor(Tag18([same protected bstr, {}, nil, KMS result]))) stored back under key 2 and nothing else is "
+             "written, that {1: alg, 4: bstr(cbor(key id))} holds with the algorithm table total and equal to the registry "
+             "for all five members, that r||s widths are one expression independent of the signature value giving "
+             "32/48/66, curve->hash table, EdDSA/HashEdDSA dispatch, CLI load/sign/save wiring, and that no decoded tag "
+             "content is mutated in place (cbor2>=6).",
+        note=TB + "NOT decided: that the signature verifies under the public key; byte identity of cbor2.dump(cbor2.load(x)).",
+        technique="abstract evaluation to byte-layout terms; table folding; data-independence of a width; write-set and "
+                  "provenance (interprocedural) analysis",
+        ref="5/C04"),
+    "C06": dict(
+        text="Static, partial: the hard-coded AAD literal is compared with cbor(['Encrypt', <protected bstr actually "
+             "emitted>, h'']) (the tie no test makes); provenance of plaintext/AAD/key into AES-GCM; digest, size and "
+             "ciphertext consume the same firmware bytes; asset layout nonce(12)|tag(16)|ct and parse boundaries coincide; "
+             "both CLI writers emit tag||ct and the other artifacts into the right files; COSE_Encrypt shape/codes with "
+             "exactly two dumps layers; wrap-depth algebra of the raw/file encryption-info form; sibling digest tables.",
+        note=TB + "NOT decided: that the ciphertext decrypts; that the key file holds a 256-bit key.",
+        technique="abstract evaluation to byte-layout terms + constant folding with the verifier's own CBOR encoder; provenance analysis",
+        ref="5/C06"),
+    "C12": dict(
+        text="Static, near-full: MpiGenerator.generate is evaluated to a byte-layout term; the complete 2x2x3 policy "
+             "decision table plus rejection is expanded and compared with the reference record (01|dp|iu|sv|FFx12|vid|cid, "
+             "0xFF padding to size, placed at address, written to the output file); merge: bounds test in linear normal "
+             "form raising before the merge, overlap='error', 0xFF fill before extraction, inclusive end giving exactly "
+             "size bytes, SHA-256 over exactly that string, appended, placed at address; CLI choices and argument plumbing.",
+        note=TB + "Library facts about intelhex (merge default overlap='error', tobinstr inclusive end) are assumed from "
+                  "the installed source. NOT decided: Intel-HEX rendering.",
+        technique="abstract evaluation to byte-layout terms; exhaustive decision-table expansion; linear normal forms; effect ordering on all paths",
+        ref="5/C12"),
+    "C13": dict(
+        text="Static, full for the derivations: the three sites (description encoder, MPI record, storage role table) "
+             "evaluate to the same canonical uuid5 terms; lookup key equals store key; Kconfig plumbing reads vendor and "
+             "class from the same manifest, maps ROOT/APP_LOCAL_1/RAD_LOCAL_1 to the intended roles, and rejects a "
+             "duplicate pair before recording it. The derivation is pure, so term equality is the property.",
+        note=TB + "uuid.UUID.hex == UUID.bytes.hex() (CPython library fact).",
+        technique="canonical-term equality of sibling derivations (abstract evaluation); structure checks on the Kconfig plumbing",
+        ref="5/C13"),
+    "C14": dict(
+        text="Static, structure of freshness: every AEAD encryption site is found; its nonce argument must be a direct "
+             "os.urandom(12) draw inside the same activation (single reaching definition), never stored, with no cache "
+             "decorator on the encrypt path; the value used is element 0 of the result, bytes [0,12) of the asset, and the "
+             "only value under header key 5. A constant, counter, class-level, default-argument, cached or "
+             "plaintext-derived nonce is reported.",
+        note=TB + "NOT decided: pairwise distinctness of 10^5 draws (statistical property of the OS RNG).",
+        technique="provenance (reaching-definition) analysis on abstract terms + call-graph scan for memoisation + byte-layout terms",
+        ref="5/C14"),
+    "C16": dict(
+        text="Static, near-full: create_files_for_update is evaluated end-to-end (helpers inlined) with symbolic cache "
+             "count: little-endian u32 fields, field count == value count for every k, values [0x55AA55AA, 1, partition "
+             "address, getsize(same input file)] + k x [0,0], placed alone at the info address, written to the storage "
+             "file; bin2hex(input, partition file, partition address) with error check; argument plumbing from the CLI and "
+             "ncs/build.py by name.",
+        note=TB + "NOT decided: Intel-HEX extended-address rendering (library).",
+        technique="abstract evaluation with symbolic repeat count; struct-format folding; provenance; argument-name binding rule",
+        ref="5/C16"),
+    "C20": dict(
+        text="Static, partial: pre-release table folded to {alpha<beta<rc<0}; converter outcomes (numeric->int, label->"
+             "exact-name member value, failure->ValueError, other types rejected); '-' normalised before splitting; default "
+             "sequence number extracted as a shift polynomial with decreasing shifts and gaps >= 8 (closed-form "
+             "monotonicity for lower fields < 256); labels the build glue can emit are labels the encoder accepts.",
+        note=TB + "NOT decided: order isomorphism for all pairs of strings (relation over values).",
+        technique="table folding; outcome enumeration by abstract evaluation; polynomial extraction; regex AST parsing",
+        ref="5/C20"),
 }
 
 NOT_YET = "check not built yet in this round (see DESIGN.md section 9 build order)"
